@@ -167,12 +167,17 @@ Disc(c, v) ==
 \* partial_cmp; when both are educed partial_cmp is Some(cmp).
 OrdFn(c, op) == IF HasTrait(c, "Ord") THEN "cmp" ELSE "partial_cmp"
 
+\* a field of the zero-sized type `()` has a single value: always Equal
+FieldOrd(c, fn, v, i, x, y) ==
+  IF c.variants[v].fields[i].ty = "unit" THEN "Equal"
+  ELSE FieldCmpBy(fn, OrdVia(c, v, i), x, y)
+
 \* --- declarative meaning: lexicographic over OrdOrder; first non-Equal wins
 RECURSIVE LexFrom(_, _, _, _, _)
 LexFrom(c, fn, a, b, order) ==
   IF order = <<>> THEN "Equal"
   ELSE LET i == Head(order)
-           r == FieldCmpBy(fn, OrdVia(c, a.v, i), a.f[i], b.f[i])
+           r == FieldOrd(c, fn, a.v, i, a.f[i], b.f[i])
        IN IF r = "Equal" THEN LexFrom(c, fn, a, b, Tail(order)) ELSE r
 
 CmpDecl(c, op, a, b) ==
@@ -190,7 +195,7 @@ ImplCmpStep(c, r) ==
     ELSE LET i == order[r.pc]
              fn == OrdFn(c, r.op)
              via == OrdVia(c, r.a.v, i)
-             res == FieldCmpBy(fn, via, r.a.f[i], r.b.f[i])
+             res == FieldOrd(c, fn, r.a.v, i, r.a.f[i], r.b.f[i])
              call == MkCall(fn, via, "a", i, r.a.f[i], "b", i, r.b.f[i], res)
          IN IF res = "Equal"
             THEN [r EXCEPT !.pc = @ + 1, !.calls = Append(@, call)]
@@ -312,5 +317,13 @@ PropHashAll(c, obs, eqs) ==
   /\ \A p \in DOMAIN obs : \A q \in DOMAIN obs :
         (HashKey(c, obs[p].a) = HashKey(c, obs[q].a)) <=> (obs[p].feed = obs[q].feed)
   /\ \A k \in DOMAIN eqs : eqs[k][3] => obs[eqs[k][1]].feed = obs[eqs[k][2]].feed
+
+\* Result-level verdict for payload types that cannot log (bool, (), Option,
+\* NonZero, ...; C04): every observed result -- the same comparison is repeated
+\* with the operands placed next to different neighbour bytes -- must be the
+\* declarative one.
+PropCmpResults(c, op, a, b, rets) ==
+  /\ Len(rets) > 0
+  /\ \A k \in DOMAIN rets : rets[k] = CmpDecl(c, op, a, b)
 
 =============================================================================
